@@ -13,7 +13,7 @@ Conventions (shared API — C01, C08, C10, C13 import this read-only):
   * names (tuple names, field labels, resource names, type-variable names) are interned `Nat`s
     (`Name`); the harness sends the same interning to the driver;
   * `Table.types[i]?` / `Table.tuples[i]?` are `Program::lookup_type / lookup_tuple`;
-  * the Rust `HashSet<(usize, usize)>` of coinductive assumptions is a list (`Asm`); only
+  * the Rust `HashSet<(usize, usize)>` of coinductive assumptions is a list (`Asm` of `AKey`s); only
     membership is ever observed, and a key is inserted only after the membership test failed, so
     the list stays duplicate-free; "snapshot / restore" is "keep the old list";
   * the Rust `type_stack: Vec<usize>` (push at the end) is a list with the TOP FIRST, so
@@ -60,7 +60,19 @@ inductive Mode where
   | any
   deriving DecidableEq, Repr, Inhabited
 
-abbrev Asm := List (Nat × Nat)
+/-- The two stacks of enclosing boundary types (each top first): `l` for the left (self) type, `r`
+for the right (pattern) type — the Rust `self_stack` / `type_stack` (fix fd75268; before it there was
+only the right one, and a left-hand `Cycle` was resolved on it). -/
+structure Stk where
+  l : List Nat := []
+  r : List Nat := []
+  deriving DecidableEq, Repr, Inhabited
+
+/-- a coinductive assumption: the two ids and (proposed, `Variant.asmCarriesStacks`) the stacks of
+enclosing types it was made under — in the code as it is the stacks are not part of the key (`{}`) -/
+abbrev AKey := Nat × Nat × Stk
+
+abbrev Asm := List AKey
 
 /-- Result of a (sub-)check: the verdict and the assumption set afterwards; `none` = out of fuel. -/
 abbrev Res := Option (Bool × Asm)
@@ -130,15 +142,12 @@ structure Variant where
   back-reference stood; its target was then "already on the stack", not pushed again, and the `Cycle`s
   inside it were counted from the entries between the reference and the target (R6) -/
   cycleKeepsInnerStack : Bool := false
+  /-- PROPOSED, not in the code (notes/C09-fixes/07; the only flag that is not a historical rule): an
+  assumption carries the two stacks it was made under and only answers a question asked below the
+  same (R7). With the flag off the key is the pair of ids alone. -/
+  asmCarriesStacks : Bool := false
   deriving DecidableEq, Repr, Inhabited
 
-/-- The two stacks of enclosing boundary types (each top first): `l` for the left (self) type, `r`
-for the right (pattern) type — the Rust `self_stack` / `type_stack` (fix fd75268; before it there was
-only the right one, and a left-hand `Cycle` was resolved on it). -/
-structure Stk where
-  l : List Nat := []
-  r : List Nat := []
-  deriving DecidableEq, Repr, Inhabited
 
 def Stk.pushL (s : Stk) (id : Nat) : Stk := { s with l := pushStack s.l id }
 def Stk.pushR (s : Stk) (id : Nat) : Stk := { s with r := pushStack s.r id }
@@ -150,6 +159,10 @@ sides sit below the same enclosing types (fix 4bee69d); for overlap the optimist
 one, so there the same id always overlaps itself -/
 def sameContext (vr : Variant) (mode : Mode) (st : Stk) : Bool :=
   vr.equalIdsIgnoreContext || (match mode with | .any => true | .all => false) || decide (st.l = st.r)
+
+/-- the key under which the pair `(a, b)` is assumed and looked up at the stacks `st` -/
+abbrev akey (vr : Variant) (st : Stk) (a b : Nat) : AKey :=
+  (a, b, if vr.asmCarriesStacks then st else {})
 
 /-- Restore the snapshot when a union check fails (fix e428d71). -/
 def restoreOnFail (vr : Variant) (snapshot : Asm) : Res → Res
@@ -183,13 +196,13 @@ def unionLeft (vr : Variant) (mode : Mode) (rec : Rec) (asm : Asm) (st : Stk) (a
     (vs : List Nat) : Res :=
   restoreOnFail vr asm
     (match mode with
-     | .all => allS (fun s v => rec s (st.pushL a) v b) vs ((a, b) :: asm)
-     | .any => anyS (fun s v => rec s (st.pushL a) v b) vs ((a, b) :: asm))
+     | .all => allS (fun s v => rec s (st.pushL a) v b) vs (akey vr st a b :: asm)
+     | .any => anyS (fun s v => rec s (st.pushL a) v b) vs (akey vr st a b :: asm))
 
 /-- `(_, Type::Union(variants))`. -/
 def unionRight (vr : Variant) (rec : Rec) (asm : Asm) (st : Stk) (a b : Nat) (vs : List Nat) :
     Res :=
-  restoreOnFail vr asm (anyS (fun s v => rec s (st.pushR b) a v) vs ((a, b) :: asm))
+  restoreOnFail vr asm (anyS (fun s v => rec s (st.pushR b) a v) vs (akey vr st a b :: asm))
 
 /-- the zipped field loop of the tuple-vs-tuple arm. -/
 def tupleFields (rec : Rec) (st : Stk)
@@ -343,7 +356,7 @@ def relStep (vr : Variant) (T : Table) (mode : Mode) (rec : Rec)
     -- the pair is recorded as a coinductive assumption and dropped again on failure, as in the
     -- union arms (fix 30aca33)
     if vr.callableNoAssumption then callableCallable vr rec asm st a b p1 r1 c1 p2 r2 c2
-    else restoreOnFail vr asm (callableCallable vr rec ((a, b) :: asm) st a b p1 r1 c1 p2 r2 c2)
+    else restoreOnFail vr asm (callableCallable vr rec (akey vr st a b :: asm) st a b p1 r1 c1 p2 r2 c2)
   | _, _ => some (false, asm)
 
 /-- `check_type_relation(self_id, pattern_id, lookup, mode, assumptions, type_stack)`. -/
@@ -351,7 +364,7 @@ def checkRelV (vr : Variant) (T : Table) (mode : Mode) : Nat → Asm → Stk →
   | 0, _, _, _, _ => none
   | fuel + 1, asm, st, a, b =>
     if a = b ∧ sameContext vr mode st = true then some (true, asm)
-    else if asm.contains (a, b) then some (true, asm)
+    else if asm.contains (akey vr st a b) then some (true, asm)
     else
       match T.types[a]?, T.types[b]? with
       | some ta, some tb => relStep vr T mode (checkRelV vr T mode fuel) asm st a b ta tb
